@@ -5,6 +5,22 @@ From RlibV Require Import C19.ProofsBasic C19.ProofsIndex.
 Import ListNotations.
 Local Open Scope N_scope.
 
+(* ---------------------------------------------------------------- the checked element count *)
+(** ([0 < W]: the fold starts from the representable value 1) *)
+Lemma vol_loop_spec W ds : positive ds -> forall acc, acc <= W ->
+  vol_loop W ds acc = if acc * product ds <=? W then Some (acc * product ds) else None.
+Proof.
+  induction 1 as [|d ds Hd Hp IH]; intros acc Hacc; cbn [vol_loop].
+  - change (product []) with 1. rewrite N.mul_1_r. apply N.leb_le in Hacc. rewrite Hacc. reflexivity.
+  - rewrite product_cons. pose proof (positive_product ds Hp) as Hpos.
+    destruct (N.leb_spec (acc * d) W) as [Hle|Hgt].
+    + rewrite (IH _ Hle). rewrite <- N.mul_assoc. reflexivity.
+    + destruct (N.leb_spec (acc * (d * product ds)) W) as [Hle2|_]; [|reflexivity]. nia.
+Qed.
+Lemma volume_spec W ds : 0 < W -> positive ds ->
+  volume W ds = if product ds <=? W then Some (product ds) else None.
+Proof. intros HW H. unfold volume. rewrite (vol_loop_spec W ds H 1) by lia. rewrite N.mul_1_l. reflexivity. Qed.
+
 Section Elem.
 Context {A : Type}.
 Implicit Types (t u : tensor A) (l : list A).
@@ -52,6 +68,60 @@ Proof.
     split; [reflexivity|]. split; [exact H|]. cbn [data dims]. rewrite repeat_length. lia.
 Qed.
 
+(** the constructors with the checked element count of the code *)
+Lemma from_vec_chk_spec W ds l : 0 < W ->
+  from_vec_chk W ds l = if positiveb ds && (product ds <=? W) && (product ds =? N.of_nat (length l))
+                        then Some (mk ds l) else None.
+Proof.
+  intros HW. unfold from_vec_chk. rewrite lenN_length.
+  destruct (contains0 ds) eqn:E.
+  - destruct (positiveb ds) eqn:P; [|reflexivity].
+    apply positiveb_spec, contains0_false in P. congruence.
+  - apply contains0_false in E. rewrite (volume_spec W ds HW E). apply positiveb_spec in E. rewrite E. cbn [andb].
+    destruct (product ds <=? W); reflexivity.
+Qed.
+Lemma from_slice_chk_spec W ds l : 0 < W ->
+  from_slice_chk W ds l = if positiveb ds && (product ds <=? W) && (product ds =? N.of_nat (length l))
+                          then Some (mk ds l) else None.
+Proof. exact (from_vec_chk_spec W ds l). Qed.
+Lemma new_chk_spec W ds (v : A) : 0 < W ->
+  new_chk W ds v = if positiveb ds && (product ds <=? W) then Some (mk ds (repeat v (N.to_nat (product ds)))) else None.
+Proof.
+  intros HW. unfold new_chk.
+  destruct (contains0 ds) eqn:E.
+  - destruct (positiveb ds) eqn:P; [|reflexivity].
+    apply positiveb_spec, contains0_false in P. congruence.
+  - apply contains0_false in E. rewrite (volume_spec W ds HW E). apply positiveb_spec in E. rewrite E. cbn [andb].
+    destruct (product ds <=? W); [rewrite iter_cons_repeat|]; reflexivity.
+Qed.
+Lemma read_chk_spec W ds (toks : list (tok A)) : 0 < W ->
+  read_chk W ds toks = if product ds <=? W then read ds toks else None.
+Proof.
+  intros HW. unfold read_chk, read. destruct (contains0 ds) eqn:E; [destruct (product ds <=? W); reflexivity|].
+  apply contains0_false in E. rewrite (volume_spec W ds HW E), prod_product.
+  destruct (product ds <=? W); reflexivity.
+Qed.
+
+(** checked and unbounded element count: the same answer whenever the data length (from_vec, from_slice) or
+    Π dims (new, read) is representable; a shape with Π dims > W is rejected by all four *)
+Lemma checked_volume W ds l (v : A) (toks : list (tok A)) : 0 < W ->
+  (N.of_nat (length l) <= W -> from_vec_chk W ds l = from_vec ds l /\ from_slice_chk W ds l = from_slice ds l) /\
+  (product ds <= W -> new_chk W ds v = new ds v /\ read_chk W ds toks = read ds toks) /\
+  (W < product ds -> from_vec_chk W ds l = None /\ from_slice_chk W ds l = None /\
+                     new_chk W ds v = None /\ read_chk W ds toks = None).
+Proof.
+  intros HW.
+  rewrite (from_slice_chk_spec W ds l HW), (from_vec_chk_spec W ds l HW), (new_chk_spec W ds v HW), (read_chk_spec W ds toks HW),
+    from_slice_spec, from_vec_spec, new_spec.
+  split; [|split].
+  - intros Hl. destruct (N.leb_spec (product ds) W) as [Hle|Hgt]; [rewrite andb_true_r; auto|].
+    destruct (N.eqb_spec (product ds) (N.of_nat (length l))) as [E|_]; [lia|].
+    rewrite !andb_false_r. auto.
+  - intros Hle. apply N.leb_le in Hle. rewrite Hle, andb_true_r. auto.
+  - intros Hgt. destruct (N.leb_spec (product ds) W) as [Hle|_]; [lia|].
+    rewrite andb_false_r. cbn [andb]. auto.
+Qed.
+
 (* ---------------------------------------------------------------- Index / IndexMut / iter *)
 Lemma index_valid t idx : wf t -> valid (dims t) idx ->
   index t idx = nth_error (iter t) (N.to_nat (offset (dims t) idx)) /\ index t idx <> None.
@@ -86,6 +156,25 @@ Proof.
     intros idx' Hv' Hne. rewrite get_index_spec.
     pose proof Hv' as Hb'. apply validb_spec in Hb'. rewrite Hb'. apply G2.
     intros E. apply Hne. apply (offset_inj (dims t)); assumption.
+Qed.
+
+(* ---------------------------------------------------------------- iter_mut *)
+Lemma zip_assign_spec l : forall vs, zip_assign l vs = firstn (length l) vs ++ skipn (length vs) l.
+Proof.
+  induction l as [|x l IH]; intros [|v vs]; cbn [zip_assign length firstn skipn app]; try reflexivity.
+  rewrite IH. reflexivity.
+Qed.
+Lemma zip_assign_length l : forall vs, length (zip_assign l vs) = length l.
+Proof. induction l as [|x l IH]; intros [|v vs]; cbn [zip_assign length]; try reflexivity. rewrite IH. reflexivity. Qed.
+Lemma iter_mut_spec t vs : wf t ->
+  wf (iter_mut_assign t vs) /\ dims (iter_mut_assign t vs) = dims t /\
+  iter (iter_mut_assign t vs) = firstn (length (iter t)) vs ++ skipn (length vs) (iter t) /\
+  (length vs = length (iter t) -> iter (iter_mut_assign t vs) = vs).
+Proof.
+  intros [Hp Hl]. unfold iter_mut_assign, iter. cbn [dims data]. split; [|split; [reflexivity|split]].
+  - split; [exact Hp|]. cbn [dims data]. rewrite zip_assign_length. exact Hl.
+  - apply zip_assign_spec.
+  - intros E. rewrite zip_assign_spec, E, skipn_all, <- E, firstn_all. apply app_nil_r.
 Qed.
 
 (* ---------------------------------------------------------------- equality *)
